@@ -477,9 +477,13 @@ def r11(ctx: Ctx):
     draws2 = [nd for nd in g2.nodes if nd.kind in ('stmt', 'cond') and any(
         isinstance(x, ast.Call) and unparse(x.func) == 'next' and x.args and is_self_attr(x.args[0])
         for top in cfgm.node_exprs(nd) for x in ast.walk(top))]
+    from mlmverif.props import c09 as _c09b
     for nd in draws2:
       n_sib += 1
       why = None
+      if _c09b.pre_counted_at(_c09b.draw_balance(g2, draws2)[0], nd):
+        ctx.ok(rule, m, f'DataIterator.{name}: the element is counted before it is drawn', nd.ast)
+        continue
       for h, lab in nd.succ:
         if lab != 'exc':
           continue
